@@ -15,7 +15,7 @@ RULE = ('A bundle (generated payload, CRC types incl. none so that CRCs cannot m
         'reference source with AAD scopes the repository source never emits ({0:1,-1:1,-2:1}, extra blocks with '
         'METADATA and/or BTSD flags, additional-protected parameter present or absent, CRC on the security block).  The '
         'encoded bundle is then altered field by field through the independent codec, CRCs recomputed: every primary '
-        'field, target type/number/flags/CRC type/data octets, security source, every scope entry, the '
+        'field, target type/number/flags/CRC type/data octets, security source, every scope entry, the scope parameter removed or retyped, the '
         'additional-protected parameter, MAC octets, protected-header octets, kid, the security block own flags, data '
         'and flags of blocks outside the scope, wrong or missing key at the receiver; for CRC-less bundles also raw '
         'single-bit flips of the encoding (exhaustive for the enumerated small bundles).  Oracle = the independent '
@@ -40,6 +40,7 @@ EXHAUSTIVE_PART = 'every single-bit flip of the enumerated CRC-less signed bundl
 SEC_REASONS = {12, 13, 14, 15, 16}
 SCOPES = [
     {0: 1, -1: 1}, {0: 1, -1: 1, -2: 1}, {-1: 1}, {0: 1, -1: 1, 3: 1}, {0: 1, -1: 1, 3: 3}, {0: 1, -1: 1, 3: 2, -2: 1},
+    None,    # no AAD-scope parameter: the default scope applies
 ]
 
 
@@ -60,7 +61,7 @@ CURVES = {-7: 'p256', -35: 'p384'}
 ALTERATION_KINDS = ['pri-flags', 'pri-dest', 'pri-src', 'pri-rpt', 'pri-time', 'pri-seq', 'pri-lifetime', 'pri-crc-type',
                     'tgt-data', 'tgt-flags', 'tgt-type', 'tgt-num', 'tgt-crc-type', 'other-data', 'other-flags',
                     'sec-flags', 'sec-source', 'sec-scope', 'sec-addl-protected', 'res-tag', 'res-protected', 'res-kid',
-                    'wrong-key', 'no-key', 'bitflip', 'x5chain-flip']
+                    'wrong-key', 'no-key', 'bitflip', 'x5chain-flip', 'sec-scope-retype', 'sec-scope-drop']
 
 
 @st.composite
@@ -156,7 +157,8 @@ def sign(case, out):
             out.fail('source-bib-count', 'expected one BIB from the source policy, found %d' % len(bibs))
             return None
         return signed
-    scope = dict(SCOPES[case['scope'] % len(SCOPES)])
+    scope = SCOPES[case['scope'] % len(SCOPES)]
+    scope = dict(scope) if scope is not None else None
     return bu.ref_add_bib(bundle, target_nums, kid, case['alg'], scope,
                           addl_protected=(b'\xa0' if case.get('addl') else b''), sec_crc=case.get('sec_crc', 0))
 
